@@ -478,7 +478,8 @@ def _knobs(rng, mode):
         ['Derivative'], ['Derivative'], ['Derivative', 'Gradient', 'Jacobian'],
         list(CLASSES), list(CLASSES), ['Hessian', 'Hessdiag'], ['Gradient', 'Jacobian', 'Hessian'],
         ['Derivative', 'Hessdiag']])
-    ns = rng.choice([[1, 2], [1, 2, 3, 4], [0, 1, 2], [1, 2, 3, 4, 5, 6], [1, 3], [2, 4], [1]])
+    ns = rng.choice([[1, 2], [1, 2, 3, 4], [0, 1, 2], [1, 2, 3, 4, 5, 6], [1, 3], [2, 4], [1], [0, 1],
+                     [0, 1, 2, 3]])
     orders = rng.choice([[2, 4], [1, 2, 3, 4], [2, 4, 6, 8], [2], [1, 2, 3, 4, 5, 6, 7, 8], [2, 6]])
     weights = {'newgen': 0.5, 'new': 2.0, 'call': 5.0, 'set': 1.5, 'restore': 1.0, 'cache': 1.0,
                'ddiff': 0.5, 'rule': 0.5, 'steps': 0.5, 'limit': 0.2, 'dropgc': 0.3, 'sweep': 0.6}
